@@ -275,6 +275,7 @@ class Env(object):
         if k == "randomize":
             self.register_fields(o)
             btor_proxy.take_log()
+            btor_proxy.DOMAINS.clear()
             del self.hook_log[:]
             before = self.snapshot_obj(o)
             out = "ok"
@@ -293,7 +294,8 @@ class Env(object):
                 out = "exc:" + type(e).__name__
                 err = (str(e)[:200] + " | " + traceback.format_exc()[-700:])
             return {"outcome": out, "err": err, "before": before, "values": self.snapshot_obj(o),
-                    "log": btor_proxy.take_log(), "hooks": list(self.hook_log), "state": self.global_state()}
+                    "log": btor_proxy.take_log(), "hooks": list(self.hook_log), "state": self.global_state(),
+                    "domains": {str(k): v for k, v in btor_proxy.DOMAINS.items()}}
         raise Exception("unknown op " + k)
 
 
